@@ -295,6 +295,8 @@ class TlSchemas:
                         length = int.from_bytes(data[i:i + 4], 'little', signed=False)
                         i += 4
                         result[field] = []
+                        if length > len(data) - i:
+                            raise TlError(f'vector length {length} exceeds the remaining {len(data) - i} bytes')
                         for _ in range(length):
                             if subtype in self.base_types:
                                 deser, j = self.deserialize(data[i:], False, {'_': subtype})
